@@ -155,6 +155,8 @@ class OutgoingBallsHandler(BallDeviceStateHandler):
             await self._handle_eject_success(eject_request)
             incoming_skipping_ball.ball_arrived()
             if add_ball_to_target:
+                # the ball we were supposed to keep went on to the target. move its claim there
+                self.ball_device.available_balls -= 1
                 target.available_balls += 1
             return True
 
